@@ -71,7 +71,21 @@ def _foreign(c):
     return n if not n.startswith(c["cnonce"]) else "#" + n
 
 
+_PAYLOADS = {}
+
+
 def payload(fam, mech, c, st):
+    """memoised _payload (the pool of credentials of the model scripts is small, PBKDF2 is not free)"""
+    key = (mech, c["user"], c["pw"], c["cnonce"], c["snonce"], c["dnonce"], c["salt"], c["iters"], c["realm"], c["domain"],
+           st["t"], st["x"], st["y"], st["z"])
+    if key not in _PAYLOADS:
+        if len(_PAYLOADS) > 200000:
+            _PAYLOADS.clear()
+        _PAYLOADS[key] = _payload(fam, mech, c, st)
+    return _PAYLOADS[key]
+
+
+def _payload(fam, mech, c, st):
     """bytes of the abstract payload (t, x, y, z) of spec/SaslExchange.tla for credentials c; None = no data"""
     t, x, y, z = st["t"], st["x"], st["y"], st["z"]
     if t == "NONE":
@@ -108,7 +122,12 @@ def payload(fam, mech, c, st):
 
 def concretise(ident, fam, mech, ver, steps, c, fast=None):
     out = []
+    aborted = False
     for st in steps:
+        if st["a"] == "Failure":   # a server that was sent <abort/> fails with <aborted/>, otherwise <not-authorized/>
+            out.append(dict(S("Failure"), data="aborted" if aborted else "not-authorized"))
+            continue
+        aborted = aborted or st["a"] == "Continue"
         p = payload(fam, mech, c, st)
         out.append({"a": st["a"], "t": st["t"], "x": st["x"], "y": st["y"], "z": st["z"],
                     "data": None if p is None else base64.b64encode(p).decode()})
@@ -177,8 +196,18 @@ def check_bytes(exe, lines):
         if got0 == other:
             probs.append(("initial", "response does not depend on the secret"))
     answered = False
-    for st, ln in zip(exe["steps"], lines[2:]):
+    before = lines[1]["o"]["res"] if len(lines) > 1 else "Error"
+    for k, (st, ln) in enumerate(zip(exe["steps"], lines[2:])):
         o = ln["o"]
+        pending, before = before == "Pending", o["res"]
+        honest = (fam == "SCRAM" and (st["t"], st["x"], st["y"], st["z"]) == ("SF", "ext", "ok", "ok")) or \
+                 (fam == "DIGEST" and st["t"] == "DC" and st["x"] == "ok" and st["y"] in ("auth", "none", "multi"))
+        if (st["a"] == "Challenge" and honest and pending and not answered and o["kinds"] != ["data"]
+                and all(s0["a"] == "Continue" for s0 in exe["steps"][:k])):
+            # the first element of an honest server is a valid challenge: the specification prescribes a response
+            n += 1
+            probs.append(("client-final" if fam == "SCRAM" else "digest-response",
+                          f"no response to a valid {'server-first message' if fam == 'SCRAM' else 'challenge'} (client reported {o['res']} {o['err']})"))
         if answered or st["a"] != "Challenge" or o["kinds"] != ["data"]:
             continue
         data = base64.b64decode(st["data"]) if st["data"] else b""
@@ -216,6 +245,8 @@ def input_class(exe):
     f = []
     if "," in u or "=" in u:
         f.append("user-contains-comma-or-equals")
+    if exe["fam"] == "DIGEST" and (exe["ref"]["dnonce"].endswith("\\") or exe["ref"]["realm"].endswith("\\")):
+        f.append("challenge-value-ends-with-backslash")
     return "+".join(f) if f else "id=" + exe["id"]
 
 
@@ -229,7 +260,9 @@ def _replay_shard(chk, name, execs):
     inp = chk.path(f"exec-{name}.ndjson")
     trace = chk.path(f"trace-{name}.ndjson")
     vf.write_ndjson(inp, execs)
-    vf.qxv("saslexchange", trace, in_path=inp, seed=chk.seed, tier=chk.tier)
+    r = vf.qxv("saslexchange", trace, in_path=inp, seed=chk.seed, tier=chk.tier, check=False)
+    if r["rc"] != 0:   # C06 has no crash clause: a dying harness is a machinery failure, never a violation
+        raise vf.MachineryError(f"qxv saslexchange exited {r['rc']}: {'; '.join(r['sanitizer'][:3])}\n{r['stderr'][-2000:]}")
     s = vf.tlc_trace("SaslExchangeTrace.tla", "SaslExchangeTrace.cfg", trace, tag="SaslExchangeTrace-" + name, heap="4g")
     return s, trace
 
@@ -240,6 +273,8 @@ def run(chk, replay=None):
     rng = random.Random(chk.seed)
     # 1. design level: every server script against the intended client (symbolic terms)
     chk.mc(vf.tlc_mc("SaslExchange.tla", "SaslExchange.cfg", workers=2), "SaslExchange.cfg")
+    if not quick:
+        chk.mc(vf.tlc_mc("SaslExchange.tla", "SaslExchangeDeep.cfg", workers=2), "SaslExchangeDeep.cfg")
     # 2. executions
     gen_stats = {}
     if replay:
@@ -268,9 +303,9 @@ def run(chk, replay=None):
                     flows = honest_flows(fam)
                     execs.append(concretise(f"r-{mech}-{j}", fam, mech, 1 + j % 2, flows[(j // 2) % len(flows)], random_creds(rng)))
     byid = {e["id"]: e for e in execs}
-    nshards = 3 if len(execs) > 3000 else 1
+    nshards = max(3, -(-len(execs) // 25000)) if len(execs) > 3000 else 1
     per = -(-len(execs) // nshards)
-    with cf.ThreadPoolExecutor(max_workers=nshards) as pool:
+    with cf.ThreadPoolExecutor(max_workers=3) as pool:
         futs = [pool.submit(_replay_shard, chk, f"s{i}", execs[i * per:(i + 1) * per]) for i in range(nshards)]
         results = [f.result() for f in futs]
     # 3. collect: TLC monitor (sequence logic) and the differential check (bytes) on the same traces
@@ -345,11 +380,12 @@ def run(chk, replay=None):
     seen = set()
     for exe, lines, probs in bytes_probs:
         for kind, what in probs:
-            cls = (exe["fam"], kind, input_class(exe))
+            ic = input_class(exe)
+            cls = (exe["fam"], kind, ic if not ic.startswith("id=") else "")   # one representative per class of input
             if cls in seen:
                 continue
             seen.add(cls)
-            sig = f"C06:Bytes:{cls[0]}:{cls[1]}:{cls[2]}"
+            sig = f"C06:Bytes:{cls[0]}:{cls[1]}:{ic}"
             chk.violation(sig, f"{exe['mech']} {kind} differs from the reference for user {exe['user']!r}: {what}", [exe] + lines)
     chk.assumptions += [
         "user names, passwords and tokens are in normalised form (NFKC-stable, nothing SASLprep maps or prohibits): SASLprep itself is not checked",
